@@ -7,6 +7,25 @@ props = [json.loads(l) for l in open(os.path.join(here, 'properties.jsonl'))]
 # id -> (technique, level text, level note, design ref)
 claimed = {
 
+ 'C03': ('interprocedural must-pass dataflow + composite-literal field-source tables over go/ssa',
+         'Structural necessary conditions for agreement of credential and stored voucher: atomic placement of AddVoucher/ReplaceVoucher behind their session prerequisites and nonce checks; credentials returned only after the final message; the replacement header built by the device and the one stored by the owner assign all fields from the prescribed sources; SetupDevice carries the very values stored in the session; the HMACed header is the one that fills the credential; the DI header stored is the one sent. Equality of the encoded bytes, blob round trips, multi-round histories and crash points are not decided (value-/execution-level).',
+         'Trusts go/types+go/ssa and the rule tables; field-source classes are provenance over-approximations.', 'DESIGN.md §2 C03'),
+ 'C09': ('registry / constant / switch tables extracted from the type-checked program and cross-compared; two must-pass gates',
+         'Structural necessary conditions: suite, cipher, MAC, signature-algorithm and key-type registries and name tables agree with each other and with the constants; both sides reach Suite.New / ProveDevice only after Suite.Valid and kex.Available. That the ~750 valid configurations actually onboard is a run, not a shape, and Suite.Valid\'s truth table is not re-derived.',
+         'Trusts go/types+go/ssa; constants are read from the packages, crypto.Hash numeric values from the Go standard library.', 'DESIGN.md §2 C09'),
+ 'C13': ('composite-literal agreement between sibling routines, must-pass dataflow, call-site tables over go/ssa',
+         'Structural necessary conditions: Sign and Verify hash the same structure with the same field sources; the algorithm id is bound into the protected bucket before serialisation and verification hashes with the parsed, registered, available algorithm; a verifier-supplied detached payload is never ignored; one MAC routine; RFC 8152 fixed-width r||s layout; true only from ecdsa/rsa primitives; signature slicing only after the exact-length check. Bit-level unforgeability and runtime leading-zero behaviour are not decided.',
+         'Trusts go/types+go/ssa, the rule tables, crypto/ecdsa, crypto/rsa, math/big.', 'DESIGN.md §2 C13'),
+ 'C17': ('must-pass dataflow (check dominates rename) inside package fsim + file-creation who-may-call table',
+         'Structural necessary condition: each of the three rename-to-destination sites is dominated by the digest comparison (or explicit absence of a digest) and, where bytes are counted, by the length comparison; received data goes only to CreateTemp files. Bit identity, chunk/MTU boundaries and short transfers are not decided.',
+         'Trusts go/types+go/ssa, rule tables, crypto/sha512, os.Rename atomicity.', 'DESIGN.md §2 C17'),
+ 'C18': ('SQL access table (constant arguments of insert/update/query/remove) vs schema parsed from Init; must-pass for session binding; receiver/global store scan',
+         'Structural necessary conditions: every table/column used exists; every access to a session-scoped table is keyed by the authenticated session id; upsert targets are unique keys (session for session tables); cascades exist; setter/getter column agreement and no shared value columns; ReplaceVoucher needs both insert and delete; expiry enforced with matching units; no in-memory state in *DB. SQLite semantics, concurrent histories, value fidelity and restarts as executions are not decided.',
+         'Trusts go/types+go/ssa and the small SQL/DDL parser in the checker (regular CREATE TABLE shapes only; anything else is reported as undecided).', 'DESIGN.md §2 C18'),
+ 'C20': ('must-pass dataflow with complementary-flag correlation, role-arm shape check, decoded-on-success use analysis, constant coverage table',
+         'Structural necessary conditions: role markers reject the other role; results copied only when non-nil; the port instruction is decoded only for the matching role; decoded values are read only on the success edge (or are of kinds the decoder assigns only on success); every RvVar constant is handled or listed as ignored by design. The value tables of the specification and order independence are not decided.',
+         'Trusts go/types+go/ssa, rule tables.', 'DESIGN.md §2 C20'),
+
  'C01': ('interprocedural must-pass dataflow (check dominates effect) over go/ssa + call graph incl. goroutines/closures, provenance-typed atoms',
          'Structural necessary condition decided on all paths of the call graph of fdo.TO2: ProveDevice (type 64) is sent, device modules are invoked and TO2 reports success only after header-HMAC, manufacturer-key, entry-chain, chain-end-key equality, ProveOVHdr signature, fresh-nonce echo, HelloDevice-hash, to1d signature (or nil) and key-exchange validity checks passed, each with operand provenance; the verifiers\' own summaries are checked too. It does not prove cryptographic binding, nor behaviour for every tampered byte (value-level).',
          'Trusts go/types+go/ssa, the rule tables, stdlib crypto; atoms are never killed; provenance is over-approximate.', 'DESIGN.md §2 C01'),
